@@ -54,7 +54,7 @@ def main():
     print('CONFIRMED' if ok else 'NOT CONFIRMED')
     if not ok:
         return 1
-    dst = os.path.join(VERIF, 'seeded', '%s-%s%s' % (prop, '' if rnd == 'seed' else 'r2', which))
+    dst = os.path.join(VERIF, 'seeded', '%s-%s%s' % (prop, '' if rnd == 'seed' else 'r' + rnd[-1], which))
     os.makedirs(dst, exist_ok=True)
     shutil.copy(diff, os.path.join(dst, 'patch.diff'))
     shutil.copy(demo, os.path.join(dst, 'demo.py'))
